@@ -43,6 +43,21 @@ example : parse ⟨fun _ => 4, fun _ => 5, fun _ => 3, 4⟩ [.pre .not, .col 0, 
     ∧ parse ⟨fun _ => 4, fun _ => 5, fun _ => 9, 4⟩ [.pre .not, .col 0, .op .eq, .num 1]
       = some (.bin .eq (.un .not (.col 0)) (.num 1)) := by decide
 
+/-- The typed token stream is determined by the bare lexical stream (operators and keywords as
+    spelled words): classifying a word as binary operator iff it follows a complete operand gives the
+    rendering back — so `-` / `+` as binary vs. unary, and `NOT`, are never ambiguous in a rendering … -/
+theorem C03_tokens_determined_by_text (d : String) (e : BoolE) :
+    retag false ((render d false (buildB e)).map Tok.erase) = some (render d false (buildB e)) := by
+  rw [render_eq]; exact retag_rend _ (wf_buildB d e)
+
+/-- … and the whole pipeline text → tokens → tree recovers the built tree under every table. -/
+theorem C03_parse_render_text (P : Prec) (d : String) (e : BoolE) :
+    parseText P ((render d false (buildB e)).map Tok.erase) = some (toT d (buildB e)) := by
+  simp only [parseText, C03_tokens_determined_by_text, C03_parse_render]
+
+example : retag false [.lp, .lp, .word "-", .col 0, .rp, .word "-", .lp, .word "-", .num 1, .rp, .rp] =
+    some [.lp, .lp, .pre .neg, .col 0, .rp, .op .sub, .lp, .pre .neg, .num 1, .rp, .rp] := by decide
+
 /-! ## the generated SQL denotes the source tree (three-valued logic kept) -/
 
 /-- SQLite-style value of the built syntax tree = three-valued value of the source tree -/
